@@ -168,6 +168,10 @@ def port_programs(tier):
         elif p.pid.startswith(('peep/s/', 'peep/f')) and 'w_shrass' not in p.pid and stable_pick(p.pid, 1000, 60 if tier == 'quick' else 400): base.append(p)      # (the 16-bit shift defect P01 stays covered by the pair family)
     for p in families2.all_core('quick'):
         if stable_pick(p.pid, 1000, 30 if tier == 'quick' else 300): base.append(p)
+    import check_c04
+    base += check_c04.g_modes()          # every addressing form x char / signed char / 16-bit arrays x X / Y / constant index
+    import families3
+    base += [p for p in families3.g_retest('quick') if '+=X' not in p.pid]       # read / store-not-through-A / read again
     out = []
     # excluded: statements whose effect depends on the incidental accumulator content (store/load), and index registers loaded from memory
     # (the index would leave the array: undefined in C, and the two placements then touch different ports)
